@@ -237,8 +237,8 @@ Theorem insert_readback_commit cf s k t s' code :
   max_fanout t <= 255 -> mcommit_tx cf s [UInsertTree k t] = (s', code) ->
   code = 0 /\ root_is (get_node s') (get_root s' k) t.
 Proof.
-  intros Hfan. unfold mcommit_tx. cbn [prepare].
-  destruct (N.ltb_spec 255 (max_fanout t)) as [H|_]; [lia|].
+  intros Hfan. unfold mcommit_tx. cbn [prepare static_code static_ref_code existsb].
+  destruct (N.ltb_spec 255 (max_fanout t)) as [H|_]; [lia|]. cbn [N.eqb negb].
   destruct t as [d cs]. rewrite claim_root_eq.
   destruct (claim_children (claim_tree (m_append_only cf)) (m_append_only cf) cs (next_id s)) as [ids [next' items]] eqn:Ec.
   cbn [prepare N.eqb negb p_roots existsb orb items_of p_kv p_nodes p_check p_used app].
@@ -367,8 +367,8 @@ Theorem insert_readback_processed cf s k t s' code :
   let s'' := mprocess cf s' in
   mqueue s'' = [] /\ root_is (get_node s'') (get_root s'' k) t.
 Proof.
-  intros Hfan Hq Hk. unfold mcommit_tx. cbn [prepare].
-  destruct (N.ltb_spec 255 (max_fanout t)) as [H|_]; [lia|].
+  intros Hfan Hq Hk. unfold mcommit_tx. cbn [prepare static_code static_ref_code existsb].
+  destruct (N.ltb_spec 255 (max_fanout t)) as [H|_]; [lia|]. cbn [N.eqb negb].
   destruct t as [d cs]. rewrite claim_root_eq.
   destruct (claim_children (claim_tree (m_append_only cf)) (m_append_only cf) cs (next_id s)) as [ids [next' items]] eqn:Ec.
   cbn [prepare N.eqb negb p_roots existsb orb items_of p_kv p_nodes p_check p_used app].
